@@ -41,9 +41,11 @@ func scenarios(tier string) []sched.Scenario {
 		{Name: "rolling-isolation", Fault: "rolling-isolation", Clients: 0, PerCli: 0, SyncData: true},
 		{Name: "leader-crash-restart", Fault: "leader-crash-restart", Clients: 1, PerCli: 1, SyncData: true},
 	}
+	specs = append(specs, oxc.ScenarioSpec{Name: "swap-snapshot-restart", Fault: "swap-snapshot-restart", Clients: 0, PerCli: 0, SyncData: true, RealDisk: true, Breaks: 1})
 	dev := 1
 	if tier == "thorough" {
 		dev = 2
+		specs = append(specs, oxc.ScenarioSpec{Name: "swap-snapshot-restart-lossy", Fault: "swap-snapshot-restart", Clients: 0, PerCli: 0, SyncData: true, RealDisk: true, Breaks: 1, LossyRPC: 1})
 		specs = append(specs, oxc.ScenarioSpec{Name: "leader-swap", Fault: "leader-swap", Clients: 1, PerCli: 1, SyncData: true},
 			oxc.ScenarioSpec{Name: "follower-crash-restart", Fault: "follower-crash-restart", Clients: 1, PerCli: 1, SyncData: true})
 	}
@@ -65,7 +67,7 @@ func main() {
 			}
 			return 110 * time.Second
 		},
-		Rule: "every schedule with at most max_dev non-default choices at coarse points (thread start = RPC delivery, channel/stream operations, selects, timers, harness steps) of a real cluster running one client, one fault (spurious failover, leader crash, coordinator crash mid-election, node swap, crash+restart) and the elections it causes; monitors at every scheduling point and at every coordination RPC",
+		Rule:   "every schedule with at most max_dev non-default choices at coarse points (thread start = RPC delivery, channel/stream operations, selects, timers, harness steps) of a real cluster running one client, one fault (spurious failover, leader crash, coordinator crash mid-election, node swap, crash+restart) and the elections it causes; monitors at every scheduling point and at every coordination RPC",
 		Assume: []string{"sequentially consistent memory", "in-process transports replace gRPC; unary RPC delivery order = scheduling of handler threads", "coarse granularity: locks/atomics are not preemption points in this harness", "virtual time; context deadlines never fire"}}
 	os.Exit(sched.Main(su, *replay))
 }
